@@ -1,11 +1,11 @@
 """C15: advertised service instances are discovered faithfully."""
 import dns
 
-SLICE = "DISC (InstanceInformation::into_records -> compressed packet -> Packet::parse -> discovery ingest -> get_known_services), ESCAPE"
+SLICE = "STORE/D (wire announcements with the addresses in the additional section through the listener loop body, then get_known_services), DISC (InstanceInformation::into_records -> compressed packet -> Packet::parse -> discovery ingest -> get_known_services), ESCAPE"
 RULE = ("seeded instance descriptions: valid single-label names (letters, digits, inner hyphens / underscores, leading underscore, "
         "63-byte labels), 0..3 IPv4/IPv6 addresses, 0..3 ports, attribute maps with '='-free keys and absent / empty / non-empty "
         "values (including the empty map); sequences of announcements from several peers, the discoverer's own instance, other "
-        "services and names that are not strict subdomains of the watched service; all strings <= 5 over {a . \\ e-acute} plus seeded "
+        "services and names that are not strict subdomains of the watched service; the same as wire datagrams with records split between the answer and additional sections, including the discoverer's own looped-back announcement; all strings <= 5 over {a . \\ e-acute} plus seeded "
         "ones for escape / unescape. Oracle: the reported set equals the advertised one. non-trivial = an instance is reported")
 INFO = {}
 NAMES = ["a", "b", "inst1", "my-inst", "_x", "a_b", "Z9", "x" * 63, "me"]
@@ -65,6 +65,38 @@ def cases(rng, tier):
         c = "DISC %s %s %x %x %s" % (svc.encode().hex(), me.encode().hex(), 120, len(peers), " ".join(" ".join(peer_toks(p)) for p in peers))
         INFO[c] = (svc, me, peers)
         out.append(c)
+    # announcements as they arrive on the wire (SRV / TXT in the answer section, the addresses in the additional section, as
+    # `announce` sends them), from peers, from the discoverer's own instance (its looped-back announcement), for the service
+    # name itself and for names outside the service, through the listener's loop body; then get_known_services
+    import pC13
+    for k in range(150 if tier == "quick" else 1500):
+        svc = [b"_srv", b"_tcp", b"local"]
+        me = [b"me"] + svc
+        toks = ["AA"] + dns.rr_toks({"name": svc, "class": 1, "ttl": 120, "cf": False, "rdata": ("T", "PTR", [("N", me)])})
+        plan = []
+        for _ in range(1 + rng.below(4)):
+            kind = rng.choice(["peer", "peer", "own", "service", "foreign"])
+            owner = {"peer": [rng.choice([b"p1", b"p2", b"Me", b"me2"])] + svc, "own": me, "service": svc,
+                     "foreign": rng.choice([[b"x", b"_other", b"_tcp", b"local"], [b"_tcp", b"local"], [b"me", b"local"]])}[kind]
+            addr = {"name": owner, "class": 1, "ttl": 120, "cf": rng.chance(1, 4), "rdata": ("T", "A", [("I", 0xC0A80100 + rng.below(200))])}
+            srv = {"name": owner, "class": 1, "ttl": 120, "cf": False, "rdata": ("T", "SRV", [("I", 0), ("I", 0), ("I", 8000 + rng.below(5)), ("N", owner)])}
+            txt = {"name": owner, "class": 1, "ttl": 120, "cf": False, "rdata": ("T", "TXT", [("L", [(0, b"k=v")])])}
+            pkt = pC13.query_pkt(0, [])
+            pkt["flags"] = 0x8400
+            layout = rng.below(3)
+            if layout == 0:
+                pkt["ans"], pkt["adds"] = [srv, txt], [addr]
+            elif layout == 1:
+                pkt["ans"], pkt["adds"] = [], [srv, txt, addr]
+            else:
+                pkt["ans"], pkt["adds"] = [addr, srv, txt], []
+            b, _ = dns.encode_marked(pkt, rng, rng.choice([0, 3]))
+            toks += ["D"] + dns.name_toks(svc) + dns.name_toks(me) + [b.hex()]
+            plan.append((kind, owner))
+        toks += ["K"] + dns.name_toks(svc)
+        c = "STORE " + " ".join(toks)
+        INFO[c] = ("wire", plan)
+        out.append(c)
     for n in range(0, 6 if tier == "quick" else 7):
         for tup in itertools.product(["a", ".", "\\", "é"], repeat=n):
             out.append("ESCAPE " + ("".join(tup).encode().hex() or "-"))
@@ -84,6 +116,9 @@ def classify(case, out):
 
 def nontrivial(case, out):
     return case.startswith("ESCAPE") or not out.endswith("| K 0")
+
+
+_classify_kind = {"DISC": "DISC", "ESCAPE": "ESCAPE", "STORE": "WIRE"}
 
 
 def valid_label(name):
@@ -111,6 +146,22 @@ def oracle(case, out):
         esc, back, _ = out.split()
         if back != (s.hex() or "-"):
             return "unescape(escape(%r)) = %s" % (s, back)
+        return None
+    if INFO[case][0] == "wire":
+        plan = INFO[case][1]
+        segs = out.split(" | ")
+        dsegs = [x for x in segs if x.startswith("D ")]
+        if len(dsegs) != len(plan):
+            return "discovery run failed: %r" % out[:200]
+        for (kind, owner), seg in zip(plan, dsegs):
+            if kind != "peer" and not seg.endswith("ING 0"):
+                return "a response about %s (%s) was ingested / reported: %r" % (b".".join(owner).decode(), kind, seg[-120:])
+            if kind == "peer" and seg.endswith("ING 0"):
+                return "a peer's announcement (%s) was not reported: %r" % (b".".join(owner).decode(), seg[-120:])
+        peers = sorted(set(o[0] for k, o in plan if k == "peer"))
+        kseg = segs[-1]
+        if not kseg.startswith("K %x" % len(peers)):
+            return "known services %r, expected the %d peers %r and nothing else" % (kseg[:200], len(peers), peers)
         return None
     svc, me, peers = INFO[case]
     if not out.startswith("OK"):
